@@ -30,6 +30,12 @@ partial def stripRanges : Json → Json
   | .obj kvs => Json.mkObj ((kvs.foldl (fun acc k v => if k == "r" then acc else (k, stripRanges v) :: acc) []))
   | j => j
 
+partial def normNumberMsg : Json → Json
+  | .arr xs => .arr (xs.map normNumberMsg)
+  | .obj kvs => Json.mkObj (kvs.foldl (fun acc k v => (k, normNumberMsg v) :: acc) [])
+  | .str s => if s == "unexpected text after number" then .str "unexpected text after unquoted string" else .str s
+  | j => j
+
 def parseIntS (s : String) : Option Int := parseIntStr s
 
 def parsePosS (s : String) : Option Pos :=
@@ -182,15 +188,19 @@ def compareModel (c : Case) (withRanges : Bool) : Verdict :=
       if c.outcome.startsWith "panic" then .mismatch "outcome" s!"model ok vs go {c.outcome} ep={c.ep} src={srcHex}"
       else .ok   -- timeout: reported by the Spec side
     else
-      let strip := fun (j : Json) => if withRanges then j else stripRanges j
-      let goErrs := strip ((c.out.getObjVal? "errs").toOption.getD (.arr #[]))
       let isWrapper := c.ep != "file"
+      -- ParseKey/ParseMapKey/ParseValue return no tree next to errors, so the number oracle cannot be read off the
+      -- observation there: the one message that depends on it is compared modulo number/unquoted string
+      let strip := fun (j : Json) =>
+        let j := if withRanges then j else stripRanges j
+        if isWrapper then normNumberMsg j else j
+      let goErrs := strip ((c.out.getObjVal? "errs").toOption.getD (.arr #[]))
       let mErrs := m.errs
       -- the wrappers return no tree when there were errors, and a single "empty" error for a nil result
       let mErrsJ : Json :=
         if isWrapper && mErrs.isEmpty && m.ast.isNone then .arr #[Json.mkObj ((if withRanges then [("r", Json.str "")] else []) ++ [("m", Json.str "empty")])]
         else errsToJson withRanges mErrs
-      match firstDiff "errs" mErrsJ goErrs with
+      match firstDiff "errs" (if isWrapper then normNumberMsg mErrsJ else mErrsJ) goErrs with
       | some d => .mismatch "errors" s!"{d} ep={c.ep} u16={c.u16} src={srcHex}"
       | none =>
         if isWrapper && !mErrs.isEmpty then .ok
